@@ -60,20 +60,22 @@ def bin_group(op, a, b, extended):
 @family('binop')
 def fam_binop(tier):
     thorough = tier == 'thorough'
+    INTS_ = INTS + ([3, 65536, (1 << 31) - 1, -(1 << 31) - 1, (1 << 32) - 1, 1 << 62] if thorough else [])
+    FLOATS_ = FLOATS + ([1.0, -2.5, 1e-7, 1e20, 12345678.0] if thorough else [])
     # int x int: every operator, full alphabet
     for op in ALLOPS:
-        for a in INTS:
-            for b in INTS:
+        for a in INTS_:
+            for b in INTS_:
                 yield bin_group(op, a, b, thorough or (a in INTS_X and b in INTS_X))
     # int x float, float x int, float x float
     for op in NUMOPS:
-        for a in INTS:
-            for b in FLOATS:
+        for a in INTS_:
+            for b in FLOATS_:
                 ext = thorough or (a in INTS_X and b in FLOATS_X)
                 yield bin_group(op, a, b, ext)
                 yield bin_group(op, b, a, ext)
-        for a in FLOATS:
-            for b in FLOATS:
+        for a in FLOATS_:
+            for b in FLOATS_:
                 yield bin_group(op, a, b, thorough or (a in FLOATS_X and b in FLOATS_X))
     # integer-only operators applied to floats: runtime type errors (the typed spellings are rejected at compile time)
     for op in ('%', '&', '|', '^', '<<', '>>'):
@@ -134,7 +136,7 @@ def fam_unary(tier):
                 g.add('ifelse', b'mixed @F(' + pm + b') { ' + im + b'if (a) return 0; else return 1; }', am)
                 g.add('ternary', b'mixed @F(' + pm + b') { ' + im + b'return a ? 0 : 1; }', am)
                 g.add('eq0', b'mixed @F(' + pm + b') { ' + im + b'return a == 0; }', am) if t == 'i' else None
-            if op == '-' and t in 'if':
+            if op == '-' and t == 'i':      # (0 - 0.0 is +0.0 but -(0.0) is -0.0: not the same computation for floats)
                 g.add('zero-minus', b'mixed @F(' + pt + b') { return 0 - a; }', at)
             yield g
 
